@@ -249,6 +249,9 @@ static void releaser_main(void*) {
         x->h = tbb::task_handle();      // drop
     }
 }
+extern "C" void (*onetbb_verif_execute_delegated_hook)(const void*);
+static long n_hook_delegated = 0;
+static void on_delegated(const void*) { n_hook_delegated++; enq_seen = true; for (auto& a : AR) a.enq_seen = true; }
 static void run_ops(const std::vector<Op>& ops) {
     for (auto& op : ops) {
         switch (op.c) {
@@ -270,7 +273,10 @@ static void run_ops(const std::vector<Op>& ops) {
             // Exception: while no worker can be anywhere (limit 1 since the last quiescent point, nothing enqueued or possibly delegated so far) and the
             // scenario has no more external threads than the arena has slots, the arena cannot be full: this execute() certainly runs in place.
             int u = op.b, me = vs_self(); submit(u, op.a, 0);
-            bool may_delegate = win_max > 1 || enq_seen || g_ext > nslots(AR[(size_t)op.a]);
+            // Exact since the hook onetbb_verif_execute_delegated_hook exists (ONETBB_VERIF, /repo src/tbb/arena.cpp): the library reports the moment an execute()
+            // finds no free slot and enqueues its functor; on_delegated() then marks enqueued work before the task is published.  (A static argument "fewer threads
+            // than slots, so never full" is wrong: a slot that its last occupant is just releasing still looks taken -- found by the thorough tier.)
+            bool may_delegate = false;
             if (may_delegate) { x_pending++; enq_seen = true; AR[(size_t)op.a].x_pending++; AR[(size_t)op.a].enq_seen = true; } else n_x_inplace_certain++;
             int xa = op.a;
             ts.xarenas.push_back(xa);     // also while it waits for a delegated functor the caller sits in the arena as an external thread
@@ -411,6 +417,7 @@ void h_run(Case& c) {
             AR[i].ta = new tbb::task_arena(AR[i].mc, (unsigned)AR[i].res, pr);
             AR[i].obs = new Obs(*AR[i].ta, (int)i); AR[i].obs->observe(true);
         }
+        onetbb_verif_execute_delegated_hook = on_delegated;
         std::vector<int> tids; int rel_tid = vs_thread_start(releaser_main, nullptr);
         for (int e = 1; e < g_ext; e++) tids.push_back(vs_thread_start(ext_main, (void*)(intptr_t)e));
         for (int r = 0; r < g_rounds; r++) {
@@ -437,7 +444,7 @@ void h_run(Case& c) {
     vs_stat_add("n_units", nsub); vs_stat_add("n_bodies", n_bodies); vs_stat_add("n_worker_bodies", n_worker_bodies); vs_stat_add("n_delegated", n_delegated); vs_stat_add("n_extra_worker", n_extra_worker);
     vs_stat_add("n_iso_wait_exec", n_iso_wait_exec); vs_stat_add("n_mid_limit", n_mid_limit); vs_stat_add("n_slot_reuse", n_slot_reuse); vs_stat_add("n_observer_entries", entries); vs_stat_add("n_excluded", n_excluded + kvl(c.lines[0], "clamped", 0));
     vs_stat_max("max_in_arena", max_in); vs_stat_max("max_workers", max_workers_seen);
-    if (n_held_waits) vs_stat_flag("isolated_wait_held_open_from_outside"); if (n_x_inplace_certain) vs_stat_flag("execute_certainly_in_place_under_limit_1"); if (n_x_wrongly_certain) vs_stat_flag("execute_delegated_although_arena_not_full"); if (n_worker_bodies) vs_stat_flag("worker_in_arena"); if (n_delegated) vs_stat_flag("delegated_execute"); if (n_extra_worker) vs_stat_flag("extra_worker_slot"); if (n_iso_wait_exec) vs_stat_flag("body_started_in_isolated_wait");
+    if (n_held_waits) vs_stat_flag("isolated_wait_held_open_from_outside"); if (n_x_inplace_certain) vs_stat_flag("execute_certainly_in_place_under_limit_1"); if (n_x_wrongly_certain) vs_stat_flag("execute_delegated_although_arena_not_full"); if (n_hook_delegated) vs_stat_flag("execute_delegated_reported_by_hook"); if (n_worker_bodies) vs_stat_flag("worker_in_arena"); if (n_delegated) vs_stat_flag("delegated_execute"); if (n_extra_worker) vs_stat_flag("extra_worker_slot"); if (n_iso_wait_exec) vs_stat_flag("body_started_in_isolated_wait");
     if (n_mid_limit) vs_stat_flag("limit_changed_while_running"); if (n_slot_reuse) vs_stat_flag("slot_reused_by_other_thread"); if (n_nested_arena) vs_stat_flag("nested_arena"); if (n_budget_tight) vs_stat_flag("worker_budget_reached");
     if (n_excluded) vs_stat_flag("excluded_external_in_extra_slot"); if (n_ext_nonreserved) vs_stat_flag("external_in_nonreserved_slot");
     vs_stat_add("nt", (max_in >= 2 && entries > 0) ? 1 : 0);
